@@ -61,3 +61,562 @@ Proof.
   unfold balanced_b. rewrite forallb_forall. intros H v Hin. specialize (H v Hin).
   destruct (vn_id v =? vs_current s) eqn:E; [apply N.eqb_eq in E; exact E | discriminate].
 Qed.
+
+(** ** reference-count balance of the version list (T1-T4)
+
+    Ghost state carried along a run: the multiset of outstanding holds (one entry per [VHold]
+    not yet matched by a [VDrop]), the greatest version id used so far, and the table of files
+    every version was installed with. *)
+
+Fixpoint remove1 (i : N) (l : list N) : list N :=
+  match l with
+  | [] => []
+  | x :: t => if i =? x then t else x :: remove1 i t
+  end.
+
+Fixpoint countN (i : N) (l : list N) : nat :=
+  match l with
+  | [] => O
+  | x :: t => ((if i =? x then 1 else 0) + countN i t)%nat
+  end.
+
+Fixpoint files_of (inst : list (N * list N)) (i : N) : list N :=
+  match inst with
+  | [] => []
+  | (j, f) :: t => if i =? j then f else files_of t i
+  end.
+
+Record ghost := mkGh {
+  gh_holds : list N;               (* outstanding holds, with multiplicity *)
+  gh_max : N;                      (* greatest version id used so far *)
+  gh_inst : list (N * list N)      (* id -> files it was installed with, newest first *)
+}.
+
+Definition gh_init : ghost := mkGh [] 0 [(0, [])].
+
+Definition gh_step (g : ghost) (e : vev) : ghost :=
+  match e with
+  | VHold id => mkGh (id :: gh_holds g) (gh_max g) (gh_inst g)
+  | VDrop id => mkGh (remove1 id (gh_holds g)) (gh_max g) (gh_inst g)
+  | VInstall id files => mkGh (gh_holds g) (N.max (gh_max g) id) ((id, files) :: gh_inst g)
+  end.
+
+Definition gh_run (evs : list vev) : ghost := fold_left gh_step evs gh_init.
+Definition holds_of (evs : list vev) : list N := gh_holds (gh_run evs).
+Definition installed_files (evs : list vev) (i : N) : list N := files_of (gh_inst (gh_run evs)) i.
+Definition last_files (evs : list vev) : list N :=
+  fold_left (fun lf e => match e with VInstall _ f => f | _ => lf end) evs [].
+
+Definition linked (s : vset) (i : N) : Prop := In i (map vn_id (vs_nodes s)).
+Definition linkedb (s : vset) (i : N) : bool := memN i (map vn_id (vs_nodes s)).
+
+(** one event is admissible in state [s] with ghost [g] *)
+Definition ev_ok (s : vset) (g : ghost) (e : vev) : bool :=
+  match e with
+  | VHold id => linkedb s id                 (* holds are taken on linked versions only *)
+  | VDrop id => memN id (gh_holds g)         (* a drop matches an outstanding hold *)
+  | VInstall id _ => gh_max g <? id          (* fresh id: greater than every id used so far *)
+  end.
+
+Fixpoint wf_from (s : vset) (g : ghost) (evs : list vev) : bool :=
+  match evs with
+  | [] => true
+  | e :: t => ev_ok s g e && wf_from (vs_step s e) (gh_step g e) t
+  end.
+
+Definition wf_events (evs : list vev) : bool := wf_from vs_init gh_init evs.
+
+(** Prop version: every event is admissible in the state reached by the events before it *)
+Definition wf_events_P (evs : list vev) : Prop :=
+  forall pre e post, evs = pre ++ e :: post -> ev_ok (vs_run pre) (gh_run pre) e = true.
+
+Lemma wf_from_app s g evs1 evs2 :
+  wf_from s g (evs1 ++ evs2) =
+  wf_from s g evs1 && wf_from (fold_left vs_step evs1 s) (fold_left gh_step evs1 g) evs2.
+Proof.
+  revert s g. induction evs1 as [|e t IH]; intros s g; cbn; [reflexivity|].
+  rewrite IH, Bool.andb_assoc. reflexivity.
+Qed.
+
+Lemma wf_events_app evs1 evs2 :
+  wf_events (evs1 ++ evs2) = wf_events evs1 && wf_from (vs_run evs1) (gh_run evs1) evs2.
+Proof. apply wf_from_app. Qed.
+
+Lemma wf_events_snoc evs e :
+  wf_events (evs ++ [e]) = wf_events evs && ev_ok (vs_run evs) (gh_run evs) e.
+Proof. rewrite wf_events_app. cbn. rewrite Bool.andb_true_r. reflexivity. Qed.
+
+Lemma wf_events_iff evs : wf_events evs = true <-> wf_events_P evs.
+Proof.
+  split.
+  - intros H pre e post ->. rewrite wf_events_app in H. apply Bool.andb_true_iff in H.
+    destruct H as [_ H]. cbn in H. apply Bool.andb_true_iff in H. apply H.
+  - induction evs as [|e t IH] using rev_ind; intros H; [reflexivity|].
+    rewrite wf_events_snoc. apply Bool.andb_true_iff. split.
+    + apply IH. intros pre e' post E. apply (H pre e' (post ++ [e])).
+      rewrite E, <- app_assoc. reflexivity.
+    + apply (H t e []). reflexivity.
+Qed.
+
+(** *** multiset facts *)
+
+Lemma countN_In i l : (countN i l >= 1)%nat <-> In i l.
+Proof.
+  induction l as [|x t IH]; cbn; [split; [lia | tauto]|].
+  destruct (i =? x) eqn:E.
+  - apply N.eqb_eq in E. split; [intros _; left; congruence | lia].
+  - apply N.eqb_neq in E. rewrite IH. split; [tauto | intros [A | A]; [congruence | exact A]].
+Qed.
+
+Lemma countN_remove1_same i l : countN i (remove1 i l) = pred (countN i l).
+Proof.
+  induction l as [|x t IH]; cbn; [reflexivity|].
+  destruct (i =? x) eqn:E; cbn; [reflexivity | rewrite E; exact IH].
+Qed.
+
+Lemma countN_remove1_other i j l : j <> i -> countN j (remove1 i l) = countN j l.
+Proof.
+  intros Hne. induction l as [|x t IH]; cbn; [reflexivity|].
+  destruct (i =? x) eqn:E; cbn.
+  - apply N.eqb_eq in E. subst x. apply N.eqb_neq in Hne. rewrite Hne. reflexivity.
+  - rewrite IH. reflexivity.
+Qed.
+
+Lemma In_remove1_other i j l : j <> i -> In j l -> In j (remove1 i l).
+Proof. intros Hne H. apply countN_In. rewrite countN_remove1_other by exact Hne. apply countN_In, H. Qed.
+
+(** *** the node list against an abstract owner count *)
+
+Definition upd (f : nat -> nat) (id : N) (nodes : list vnode) : list vnode :=
+  map (fun v => if vn_id v =? id then mkVN id (f (vn_refs v)) (vn_files v) else v) nodes.
+Definition alive (v : vnode) : bool := negb (Nat.eqb (vn_refs v) 0).
+
+Lemma vs_ref_eq s id : vs_ref s id = mkVS (upd S id (vs_nodes s)) (vs_current s).
+Proof. reflexivity. Qed.
+Lemma vs_release_eq s id :
+  vs_release s id = mkVS (filter alive (upd pred id (vs_nodes s))) (vs_current s).
+Proof. reflexivity. Qed.
+
+Lemma upd_ids f id nodes : map vn_id (upd f id nodes) = map vn_id nodes.
+Proof.
+  unfold upd. rewrite map_map. apply map_ext. intros v.
+  destruct (vn_id v =? id) eqn:E; [apply N.eqb_eq in E; cbn; symmetry; exact E | reflexivity].
+Qed.
+
+Lemma In_upd f id nodes w : In w (upd f id nodes) <->
+  exists v, In v nodes /\ w = (if vn_id v =? id then mkVN id (f (vn_refs v)) (vn_files v) else v).
+Proof.
+  unfold upd. rewrite in_map_iff.
+  split; intros (v & A & B); exists v; split; [exact B | symmetry; exact A | symmetry; exact B | exact A].
+Qed.
+
+(** every node that survives an update/filter is an old node with the same id and files *)
+Lemma upd_origin f id nodes w : In w (upd f id nodes) ->
+  exists v, In v nodes /\ vn_id w = vn_id v /\ vn_files w = vn_files v.
+Proof.
+  intros H. apply In_upd in H. destruct H as (v & Hv & ->). exists v. split; [exact Hv|].
+  destruct (vn_id v =? id) eqn:E; [apply N.eqb_eq in E; cbn; auto | auto].
+Qed.
+
+Lemma NoDup_map_filter {A B} (g : A -> B) (p : A -> bool) l :
+  NoDup (map g l) -> NoDup (map g (filter p l)).
+Proof.
+  induction l as [|a l IH]; cbn; intros H; [exact H|].
+  inversion H as [|x xs Hn Hd]; subst.
+  assert (Hn' : ~ In (g a) (map g (filter p l))).
+  { intros Hin. apply Hn. apply in_map_iff in Hin. destruct Hin as (x & E & Hx).
+    apply filter_In in Hx. apply in_map_iff. exists x. split; [exact E | apply Hx]. }
+  destruct (p a); cbn; [constructor; auto | auto].
+Qed.
+
+Record NInv (nodes : list vnode) (c : N -> nat) : Prop := mkNInv {
+  ni_nodup : NoDup (map vn_id nodes);
+  ni_refs : forall v, In v nodes -> vn_refs v = c (vn_id v);
+  ni_linked : forall i, In i (map vn_id nodes) <-> (c i >= 1)%nat
+}.
+
+Lemma NInv_hold nodes c c' id :
+  NInv nodes c -> In id (map vn_id nodes) ->
+  (forall i, c' i = if i =? id then S (c i) else c i) ->
+  NInv (upd S id nodes) c'.
+Proof.
+  intros [Hnd Hr Hl] Hin Hc. constructor.
+  - rewrite upd_ids. exact Hnd.
+  - intros w Hw. apply In_upd in Hw. destruct Hw as (v & Hv & ->). rewrite Hc.
+    destruct (vn_id v =? id) eqn:E.
+    + cbn. rewrite N.eqb_refl. apply N.eqb_eq in E. rewrite (Hr v Hv), E. reflexivity.
+    + rewrite E. apply Hr, Hv.
+  - intros i. rewrite upd_ids, Hc. destruct (i =? id) eqn:E.
+    + apply N.eqb_eq in E. subst. split; [lia | intros _; exact Hin].
+    + apply Hl.
+Qed.
+
+Lemma NInv_release nodes c c' id :
+  NInv nodes c ->
+  (forall i, c' i = if i =? id then pred (c i) else c i) ->
+  NInv (filter alive (upd pred id nodes)) c'.
+Proof.
+  intros [Hnd Hr Hl] Hc. constructor.
+  - apply NoDup_map_filter. rewrite upd_ids. exact Hnd.
+  - intros w Hw. apply filter_In in Hw. destruct Hw as [Hw _]. apply In_upd in Hw.
+    destruct Hw as (v & Hv & ->). rewrite Hc. destruct (vn_id v =? id) eqn:E.
+    + cbn. rewrite N.eqb_refl. apply N.eqb_eq in E. rewrite (Hr v Hv), E. reflexivity.
+    + rewrite E. apply Hr, Hv.
+  - intros i. rewrite Hc. split.
+    + intros Hi. apply in_map_iff in Hi. destruct Hi as (w & <- & Hw). apply filter_In in Hw.
+      destruct Hw as [Hw Ha]. apply In_upd in Hw. destruct Hw as (v & Hv & ->).
+      unfold alive in Ha. destruct (vn_id v =? id) eqn:E.
+      * cbn in *. rewrite N.eqb_refl. apply N.eqb_eq in E. rewrite <- E, <- (Hr v Hv).
+        destruct (pred (vn_refs v)); [discriminate | lia].
+      * rewrite E. rewrite <- (Hr v Hv). destruct (vn_refs v); [discriminate | lia].
+    + intros Hi. destruct (i =? id) eqn:E.
+      * apply N.eqb_eq in E. subst i.
+        assert (Hin : In id (map vn_id nodes)) by (apply Hl; lia).
+        apply in_map_iff in Hin. destruct Hin as (v & Ev & Hv). apply in_map_iff.
+        exists (mkVN id (pred (vn_refs v)) (vn_files v)). split; [reflexivity|].
+        apply filter_In. split.
+        -- apply In_upd. exists v. split; [exact Hv|]. rewrite Ev, N.eqb_refl. reflexivity.
+        -- unfold alive. cbn. rewrite (Hr v Hv), Ev. destruct (pred (c id)); [lia | reflexivity].
+      * pose proof (proj2 (Hl i) Hi) as Hin. apply in_map_iff in Hin.
+        destruct Hin as (v & Ev & Hv). apply in_map_iff.
+        exists v. split; [exact Ev|]. apply filter_In. split.
+        -- apply In_upd. exists v. split; [exact Hv|]. rewrite Ev, E. reflexivity.
+        -- unfold alive. rewrite (Hr v Hv), Ev. destruct (c i); [lia | reflexivity].
+Qed.
+
+(** *** the invariant of well-formed runs *)
+
+(** number of owners of version [i]: the current pointer (if it points at [i]) plus the
+    outstanding holds on [i] *)
+Definition own (s : vset) (h : list N) (i : N) : nat :=
+  ((if i =? vs_current s then 1 else 0) + countN i h)%nat.
+
+Record Inv (s : vset) (g : ghost) : Prop := mkInv {
+  inv_n : NInv (vs_nodes s) (own s (gh_holds g));
+  inv_max : forall v, In v (vs_nodes s) -> vn_id v <= gh_max g;
+  inv_files : forall v, In v (vs_nodes s) -> vn_files v = files_of (gh_inst g) (vn_id v)
+}.
+
+Lemma Inv_init : Inv vs_init gh_init.
+Proof.
+  constructor.
+  - constructor.
+    + cbn. constructor; [intros [] | constructor].
+    + intros v [<- | []]. reflexivity.
+    + intros i. unfold own. cbn. destruct (i =? 0) eqn:E.
+      * apply N.eqb_eq in E. subst. split; [lia | auto].
+      * apply N.eqb_neq in E. split; [intros [A | []]; congruence | lia].
+  - intros v [<- | []]. cbn. lia.
+  - intros v [<- | []]. reflexivity.
+Qed.
+
+Lemma NoDup_snoc {A} (l : list A) x : NoDup l -> ~ In x l -> NoDup (l ++ [x]).
+Proof.
+  induction l as [|a l IH]; cbn; intros Hnd Hx; [constructor; [intros [] | constructor]|].
+  inversion Hnd as [|y ys Hn Hd]; subst. constructor.
+  - rewrite in_app_iff. cbn. intros [H | [H | []]]; [exact (Hn H) | apply Hx; left; congruence].
+  - apply IH; [exact Hd | intros H; apply Hx; right; exact H].
+Qed.
+
+Lemma Inv_step s g e : Inv s g -> ev_ok s g e = true -> Inv (vs_step s e) (gh_step g e).
+Proof.
+  intros [Hn Hm Hf] Hok. destruct e as [id | id | id files]; cbn [ev_ok vs_step gh_step] in *.
+  - (* hold *)
+    unfold linkedb in Hok. apply memN_In in Hok. rewrite vs_ref_eq.
+    constructor; cbn [vs_nodes vs_current gh_holds gh_max gh_inst].
+    + apply (NInv_hold _ _ _ id Hn Hok). intros i. unfold own. cbn [vs_current countN].
+      destruct (i =? id), (i =? vs_current s); lia.
+    + intros w Hw. apply upd_origin in Hw. destruct Hw as (v & Hv & E1 & _). rewrite E1.
+      apply Hm, Hv.
+    + intros w Hw. apply upd_origin in Hw. destruct Hw as (v & Hv & E1 & E2). rewrite E1, E2.
+      apply Hf, Hv.
+  - (* drop *)
+    apply memN_In in Hok. rewrite vs_release_eq.
+    constructor; cbn [vs_nodes vs_current gh_holds gh_max gh_inst].
+    + apply (NInv_release _ _ _ id Hn). intros i. unfold own. cbn [vs_current].
+      destruct (i =? id) eqn:E.
+      * apply N.eqb_eq in E. subst i. rewrite countN_remove1_same. apply countN_In in Hok.
+        destruct (id =? vs_current s); lia.
+      * apply N.eqb_neq in E. rewrite countN_remove1_other by exact E. reflexivity.
+    + intros w Hw. apply filter_In in Hw. destruct Hw as [Hw _]. apply upd_origin in Hw.
+      destruct Hw as (v & Hv & E1 & _). rewrite E1. apply Hm, Hv.
+    + intros w Hw. apply filter_In in Hw. destruct Hw as [Hw _]. apply upd_origin in Hw.
+      destruct Hw as (v & Hv & E1 & E2). rewrite E1, E2. apply Hf, Hv.
+  - (* install *)
+    apply N.ltb_lt in Hok. unfold vs_install. rewrite vs_release_eq. cbn [vs_nodes vs_current].
+    set (c1 := fun i => ((if i =? id then 1 else 0) + own s (gh_holds g) i)%nat).
+    assert (Hfresh : ~ In id (map vn_id (vs_nodes s))).
+    { intros Hin. apply in_map_iff in Hin. destruct Hin as (v & E & Hv). specialize (Hm v Hv). lia. }
+    assert (H0 : own s (gh_holds g) id = 0%nat).
+    { destruct (own s (gh_holds g) id) eqn:E; [reflexivity|]. exfalso. apply Hfresh.
+      apply (ni_linked _ _ Hn). lia. }
+    assert (H1 : NInv (vs_nodes s ++ [mkVN id 1 files]) c1).
+    { destruct Hn as [Hnd Hr Hl]. constructor.
+      - rewrite map_app. cbn [map vn_id]. apply NoDup_snoc; assumption.
+      - intros v Hv. apply in_app_iff in Hv. destruct Hv as [Hv | [<- | []]].
+        + unfold c1. assert (Hne : vn_id v <> id).
+          { intros E. apply Hfresh. rewrite <- E. apply in_map, Hv. }
+          apply N.eqb_neq in Hne. rewrite Hne. apply Hr, Hv.
+        + cbn [vn_id vn_refs]. unfold c1. rewrite N.eqb_refl, H0. reflexivity.
+      - intros i. rewrite map_app, in_app_iff. cbn [map vn_id In]. unfold c1.
+        destruct (i =? id) eqn:E.
+        + apply N.eqb_eq in E. split; [lia | intros _; right; left; congruence].
+        + apply N.eqb_neq in E. rewrite Hl.
+          split; [intros [A | [A | []]]; [lia | congruence] | intros A; left; lia]. }
+    constructor; cbn [vs_nodes vs_current gh_holds gh_max gh_inst].
+    + apply (NInv_release _ _ _ (vs_current s) H1). intros i. unfold c1, own. cbn [vs_current].
+      destruct (i =? vs_current s), (i =? id); lia.
+    + intros w Hw. apply filter_In in Hw. destruct Hw as [Hw _]. apply upd_origin in Hw.
+      destruct Hw as (v & Hv & E1 & _). rewrite E1. apply in_app_iff in Hv.
+      destruct Hv as [Hv | [<- | []]]; [specialize (Hm v Hv); lia | cbn [vn_id]; lia].
+    + intros w Hw. apply filter_In in Hw. destruct Hw as [Hw _]. apply upd_origin in Hw.
+      destruct Hw as (v & Hv & E1 & E2). rewrite E1, E2. apply in_app_iff in Hv.
+      destruct Hv as [Hv | [<- | []]]; cbn [files_of vn_id vn_files].
+      * assert (Hne : vn_id v <> id).
+        { intros E. apply Hfresh. rewrite <- E. apply in_map, Hv. }
+        apply N.eqb_neq in Hne. rewrite Hne. apply Hf, Hv.
+      * rewrite N.eqb_refl. reflexivity.
+Qed.
+
+Lemma Inv_run evs : forall s g, Inv s g -> wf_from s g evs = true ->
+  Inv (fold_left vs_step evs s) (fold_left gh_step evs g).
+Proof.
+  induction evs as [|e t IH]; intros s g HI Hwf; [exact HI|].
+  cbn in Hwf. apply Bool.andb_true_iff in Hwf. destruct Hwf as [Hok Hwf].
+  cbn [fold_left]. apply IH; [apply Inv_step; assumption | exact Hwf].
+Qed.
+
+Lemma Inv_reach evs : wf_events evs = true -> Inv (vs_run evs) (gh_run evs).
+Proof. intros H. apply Inv_run; [apply Inv_init | exact H]. Qed.
+
+(** *** T1: reference counts are exact *)
+Theorem refs_exact evs : wf_events evs = true ->
+  let s := vs_run evs in
+  (forall v, In v (vs_nodes s) ->
+     vn_refs v = ((if vn_id v =? vs_current s then 1 else 0) + countN (vn_id v) (holds_of evs))%nat
+     /\ (vn_refs v >= 1)%nat)
+  /\ NoDup (map vn_id (vs_nodes s))
+  /\ linked s (vs_current s).
+Proof.
+  intros H s. destruct (Inv_reach evs H) as [[Hnd Hr Hl] _ _]. fold s in Hnd, Hr, Hl.
+  split; [|split].
+  - intros v Hv. split; [apply (Hr v Hv)|]. rewrite (Hr v Hv). apply Hl. apply in_map, Hv.
+  - exact Hnd.
+  - apply Hl. unfold own. rewrite N.eqb_refl. lia.
+Qed.
+
+(** *** T2: a version is linked exactly while it has a holder *)
+Theorem linked_iff_held evs i : wf_events evs = true ->
+  (linked (vs_run evs) i <-> i = vs_current (vs_run evs) \/ In i (holds_of evs)).
+Proof.
+  intros H. destruct (Inv_reach evs H) as [[_ _ Hl] _ _]. unfold linked. rewrite Hl.
+  unfold own, holds_of. rewrite <- countN_In. destruct (i =? vs_current (vs_run evs)) eqn:E.
+  - apply N.eqb_eq in E. split; [intros _; left; exact E | lia].
+  - apply N.eqb_neq in E. split; [intros A; right; lia | intros [A | A]; [contradiction | lia]].
+Qed.
+
+(** a linked node carries the files its version was installed with, and they are live *)
+Lemma linked_node_files evs v : wf_events evs = true ->
+  In v (vs_nodes (vs_run evs)) -> vn_files v = installed_files evs (vn_id v).
+Proof. intros H. apply (inv_files _ _ (Inv_reach evs H)). Qed.
+
+Lemma linked_files_live evs i f : wf_events evs = true ->
+  linked (vs_run evs) i -> In f (installed_files evs i) -> In f (vs_live_files (vs_run evs)).
+Proof.
+  intros H Hl Hf. apply in_map_iff in Hl. destruct Hl as (v & <- & Hv).
+  unfold vs_live_files. apply in_flat_map. exists v. split; [exact Hv|].
+  rewrite (linked_node_files evs v H Hv). exact Hf.
+Qed.
+
+(** the files of every version that the current pointer or a reader / iterator / compaction
+    still holds are live *)
+Theorem held_files_live evs i f : wf_events evs = true ->
+  i = vs_current (vs_run evs) \/ In i (holds_of evs) ->
+  In f (installed_files evs i) -> In f (vs_live_files (vs_run evs)).
+Proof. intros H Hh. apply linked_files_live; [exact H | apply linked_iff_held; assumption]. Qed.
+
+(** combined with [never_deletes_needed]: when garbage collection is given the live files of
+    the version list, its side condition holds by construction ... *)
+Theorem run_never_deletes_needed evs g f : wf_events evs = true ->
+  g_live g = vs_live_files (vs_run evs) ->
+  needed g (installed_files evs (vs_current (vs_run evs))) f -> keep g f = true.
+Proof.
+  intros H Hg. apply never_deletes_needed. intros n Hn. rewrite Hg.
+  apply (held_files_live evs _ n H (or_introl eq_refl) Hn).
+Qed.
+
+(** ... and no table of a held version is ever selected for deletion *)
+Theorem held_files_kept evs g i n listing : wf_events evs = true ->
+  g_live g = vs_live_files (vs_run evs) ->
+  i = vs_current (vs_run evs) \/ In i (holds_of evs) ->
+  In n (installed_files evs i) ->
+  keep g (FTable n) = true /\ (In (FTable n) listing -> In (FTable n) (gc g listing)).
+Proof.
+  intros H Hg Hh Hn.
+  assert (Hk : keep g (FTable n) = true).
+  { apply (run_never_deletes_needed evs g (FTable n) H Hg). cbn [needed]. right. left.
+    rewrite Hg. apply (held_files_live evs i n H Hh Hn). }
+  split; [exact Hk|]. intros Hin. unfold gc. apply filter_In. split; assumption.
+Qed.
+
+(** *** T3: nothing dead is kept *)
+Lemma vs_current_step s e :
+  vs_current (vs_step s e) = match e with VInstall id _ => id | _ => vs_current s end.
+Proof. destruct e; reflexivity. Qed.
+
+Lemma last_files_gen evs : forall s g lf,
+  files_of (gh_inst g) (vs_current s) = lf ->
+  files_of (gh_inst (fold_left gh_step evs g)) (vs_current (fold_left vs_step evs s)) =
+  fold_left (fun lf e => match e with VInstall _ f => f | _ => lf end) evs lf.
+Proof.
+  induction evs as [|e t IH]; intros s g lf E; [exact E|].
+  cbn [fold_left]. apply IH. rewrite vs_current_step.
+  destruct e as [id | id | id files]; cbn [gh_step gh_inst files_of]; try exact E.
+  rewrite N.eqb_refl. reflexivity.
+Qed.
+
+Lemma current_files_last evs :
+  installed_files evs (vs_current (vs_run evs)) = last_files evs.
+Proof. apply last_files_gen. reflexivity. Qed.
+
+Theorem no_holds_exact evs : wf_events evs = true -> holds_of evs = [] ->
+  let s := vs_run evs in
+  vs_nodes s = [mkVN (vs_current s) 1 (last_files evs)] /\ vs_live_files s = last_files evs.
+Proof.
+  intros H Hh s.
+  assert (Hall : forall v, In v (vs_nodes s) -> v = mkVN (vs_current s) 1 (last_files evs)).
+  { intros v Hv. destruct (refs_exact evs H) as (Hr & _ & _). destruct (Hr v Hv) as [Hrv _].
+    assert (Hid : vn_id v = vs_current s).
+    { assert (Hl : linked s (vn_id v)) by (apply in_map, Hv).
+      apply (linked_iff_held evs _ H) in Hl. rewrite Hh in Hl. destruct Hl as [A | []]. exact A. }
+    pose proof (linked_node_files evs v H Hv) as Hfv. fold s in Hrv.
+    rewrite Hid in Hfv. unfold s in Hfv. rewrite current_files_last in Hfv.
+    rewrite Hh, Hid, N.eqb_refl in Hrv. cbn in Hrv.
+    destruct v as [vi vr vf]. cbn in *. subst. reflexivity. }
+  assert (Hn : vs_nodes s = [mkVN (vs_current s) 1 (last_files evs)]).
+  { destruct (refs_exact evs H) as (_ & Hnd & Hcur). fold s in Hnd, Hcur. unfold linked in Hcur.
+    destruct (vs_nodes s) as [|v [|w rest]] eqn:En.
+    - destruct Hcur.
+    - rewrite (Hall v (or_introl eq_refl)). reflexivity.
+    - exfalso. rewrite (Hall v (or_introl eq_refl)), (Hall w (or_intror (or_introl eq_refl))) in Hnd.
+      cbn in Hnd. inversion Hnd as [|x xs Hni _]; subst. apply Hni. left. reflexivity. }
+  split; [exact Hn|]. unfold vs_live_files. rewrite Hn. cbn. apply app_nil_r.
+Qed.
+
+(** *** T4: an unmatched hold (defect D8) keeps its version, and its files, forever *)
+Lemma holds_persist evs : forall g i,
+  In i (gh_holds g) -> ~ In (VDrop i) evs -> In i (gh_holds (fold_left gh_step evs g)).
+Proof.
+  induction evs as [|e t IH]; intros g i Hi Hnd; [exact Hi|].
+  cbn [fold_left]. apply IH; [|intros A; apply Hnd; right; exact A].
+  destruct e as [id | id | id files]; cbn [gh_step gh_holds].
+  - right. exact Hi.
+  - apply In_remove1_other; [|exact Hi]. intros E. apply Hnd. left. rewrite E. reflexivity.
+  - exact Hi.
+Qed.
+
+Lemma gh_max_mono evs : forall g, gh_max g <= gh_max (fold_left gh_step evs g).
+Proof.
+  induction evs as [|e t IH]; intros g; [cbn; lia|]. cbn [fold_left].
+  specialize (IH (gh_step g e)). destruct e; cbn [gh_step gh_max] in *; lia.
+Qed.
+
+Lemma files_of_stable evs : forall s g i, wf_from s g evs = true -> i <= gh_max g ->
+  files_of (gh_inst (fold_left gh_step evs g)) i = files_of (gh_inst g) i.
+Proof.
+  induction evs as [|e t IH]; intros s g i Hwf Hi; [reflexivity|].
+  cbn in Hwf. apply Bool.andb_true_iff in Hwf. destruct Hwf as [Hok Hwf]. cbn [fold_left].
+  rewrite (IH _ _ i Hwf).
+  - destruct e as [id | id | id files]; cbn [gh_step gh_inst files_of]; try reflexivity.
+    cbn [ev_ok] in Hok. apply N.ltb_lt in Hok. assert (Hne : i <> id) by lia.
+    apply N.eqb_neq in Hne. rewrite Hne. reflexivity.
+  - pose proof (gh_max_mono [e] g) as Hm. cbn [fold_left] in Hm. lia.
+Qed.
+
+Theorem unmatched_hold_stays_linked evs1 evs2 i :
+  wf_events (evs1 ++ evs2) = true ->
+  In i (holds_of evs1) ->            (* an outstanding hold on [i] after [evs1] ... *)
+  ~ In (VDrop i) evs2 ->             (* ... that is never dropped afterwards *)
+  linked (vs_run (evs1 ++ evs2)) i /\
+  (forall f, In f (installed_files evs1 i) -> In f (vs_live_files (vs_run (evs1 ++ evs2)))).
+Proof.
+  intros H Hi Hnd.
+  assert (Hh : In i (holds_of (evs1 ++ evs2))).
+  { unfold holds_of, gh_run. rewrite fold_left_app. apply holds_persist; assumption. }
+  assert (Hl : linked (vs_run (evs1 ++ evs2)) i) by (apply linked_iff_held; auto).
+  split; [exact Hl|]. intros f Hf. apply (linked_files_live _ i f H Hl).
+  pose proof H as H'. rewrite wf_events_app in H'. apply Bool.andb_true_iff in H'.
+  destruct H' as [H1 H2].
+  unfold installed_files, gh_run. rewrite fold_left_app. fold (gh_run evs1).
+  rewrite (files_of_stable evs2 _ _ i H2); [exact Hf|].
+  assert (Hl1 : linked (vs_run evs1) i) by (apply linked_iff_held; auto).
+  apply in_map_iff in Hl1. destruct Hl1 as (v & <- & Hv).
+  apply (inv_max _ _ (Inv_reach evs1 H1) v Hv).
+Qed.
+
+(** the D8 scenario. The initial version has id 0 and no files, so the scenario is run one id
+    up: install 1 with [5], hold 1 (the trivial move's input version, never released), install
+    2 with [6] and 3 with [7]. File 5 is still live although version 1 has long been replaced. *)
+Example leak_D8_wf :
+  wf_events [VInstall 1 [5]; VHold 1; VInstall 2 [6]; VInstall 3 [7]] = true.
+Proof. vm_compute. reflexivity. Qed.
+
+Example leak_D8 :
+  vs_live_files (vs_run [VInstall 1 [5]; VHold 1; VInstall 2 [6]; VInstall 3 [7]]) = [5; 7]
+  /\ vs_nodes (vs_run [VInstall 1 [5]; VHold 1; VInstall 2 [6]; VInstall 3 [7]])
+     = [mkVN 1 1 [5]; mkVN 3 1 [7]]
+  /\ holds_of [VInstall 1 [5]; VHold 1; VInstall 2 [6]; VInstall 3 [7]] = [1].
+Proof. vm_compute. auto. Qed.
+
+(** with the hold released (the repaired code) the file is dropped from the live set *)
+Example leak_D8_repaired :
+  wf_events [VInstall 1 [5]; VHold 1; VInstall 2 [6]; VDrop 1; VInstall 3 [7]] = true
+  /\ vs_live_files (vs_run [VInstall 1 [5]; VHold 1; VInstall 2 [6]; VDrop 1; VInstall 3 [7]]) = [7].
+Proof. vm_compute. auto. Qed.
+
+(** the hypotheses are satisfiable on a run with interleaved holds, drops and installs *)
+Definition sample_run : list vev :=
+  [VHold 0; VInstall 1 [5]; VHold 1; VHold 1; VInstall 2 [6]; VDrop 0; VHold 2; VDrop 1;
+   VInstall 4 [7; 8]; VHold 4; VDrop 2; VDrop 1; VInstall 9 [7; 10]; VDrop 4].
+
+Example sample_run_wf : wf_events sample_run = true.
+Proof. vm_compute. reflexivity. Qed.
+
+Example sample_run_result :
+  holds_of sample_run = [] /\ vs_run sample_run = mkVS [mkVN 9 1 [7; 10]] 9
+  /\ last_files sample_run = [7; 10].
+Proof. vm_compute. auto. Qed.
+
+Example sample_run_midway :
+  let evs := firstn 10 sample_run in
+  wf_events evs = true /\ holds_of evs = [4; 2; 1]
+  /\ vs_nodes (vs_run evs) = [mkVN 1 1 [5]; mkVN 2 1 [6]; mkVN 4 2 [7; 8]].
+Proof. vm_compute. auto. Qed.
+
+(** the well-formedness conditions are needed: each one dropped breaks T1/T2 *)
+Example reused_id_breaks :          (* [VInstall] with an id that is still linked *)
+  wf_events [VInstall 0 [5]] = false /\ vs_nodes (vs_run [VInstall 0 [5]]) = [].
+Proof. vm_compute. auto. Qed.
+
+Example reused_old_id_breaks :      (* an id used before but unlinked now: counts go wrong *)
+  let evs := [VInstall 1 [5]; VHold 1; VInstall 2 [6]; VDrop 1; VHold 2; VInstall 1 [7];
+              VInstall 3 [8]] in
+  wf_events evs = false /\ wf_events (firstn 5 evs) = true.
+Proof. vm_compute. auto. Qed.
+
+Example hold_unlinked_breaks :      (* a hold on an unlinked version is not a holder *)
+  let evs := [VInstall 1 [5]; VHold 0] in
+  wf_events evs = false /\ holds_of evs = [0] /\ ~ linked (vs_run evs) 0.
+Proof. vm_compute. split; [|split]; auto. intros [A | []]. discriminate. Qed.
+
+Example unmatched_drop_breaks :     (* a drop without a hold unlinks the current version *)
+  wf_events [VDrop 0] = false /\ vs_nodes (vs_run [VDrop 0]) = [].
+Proof. vm_compute. auto. Qed.
+
+(** with no outstanding holds the run is balanced in the sense of [balanced_b] *)
+Corollary no_holds_balanced evs : wf_events evs = true -> holds_of evs = [] ->
+  balanced_b (vs_run evs) = true.
+Proof.
+  intros H Hh. destruct (no_holds_exact evs H Hh) as [Hn _]. unfold balanced_b. rewrite Hn.
+  cbn. rewrite N.eqb_refl. reflexivity.
+Qed.
